@@ -1614,7 +1614,10 @@ def w_agg_layout(failure, tier):
     add = {"keyword_fields": [{"name": "tag", "stored": True, "indexed": True, "fast": True}, {"name": "kind", "stored": True, "indexed": True, "fast": True}],
            "numeric_fields": [{"name": "n", "i64": True, "fast": True, "stored": True}]}
     aggs = {"tags": {"type": "terms", "field": "tag", "size": 50, "aggs": {"kinds": {"type": "terms", "field": "kind", "size": 50}}},
-            "hist": {"type": "histogram", "field": "n", "interval": 2.0}}
+            "hist": {"type": "histogram", "field": "n", "interval": 2.0},
+            "hb": {"type": "histogram", "field": "n", "interval": 2.0, "min_doc_count": 0, "extended_bounds": {"min": 0.0, "max": 9.0},
+                   "aggs": {"st": {"type": "value_count", "field": "n"}}}}
+    docs = sorted(docs, key=lambda d: (d["n"], d["_id"]))      # segments hold different value ranges: buckets empty in one, filled in another
     layouts = [[docs], [docs[:8], docs[8:16], docs[16:]], [docs[i:i + 5] for i in range(0, 24, 5)], [docs[i:i + 1] for i in range(24)][:12] + [docs[12:]]]
     n = 0
     for q in ({"type": "match_all"}, "beta"):
@@ -1641,6 +1644,13 @@ def w_agg_layout(failure, tier):
                 for sb in ((b.get('aggregations') or b.get('aggs') or {}).get('kinds') or {}).get('buckets', []):
                     got_sub[(b['key'], sb['key'])] = got_sub.get((b['key'], sb['key']), 0) + sb['doc_count']
             got_hist = [(float(b['key']), b['doc_count']) for b in (ag.get('hist') or {}).get('buckets', []) if b['doc_count']]
+            # every non-empty bucket of the bounded histogram carries its sub-aggregation, counting the bucket's documents
+            bad_sub = []
+            for b in (ag.get('hb') or {}).get('buckets', []):
+                st = ((b.get('aggregations') or b.get('aggs') or {}).get('st') or {})
+                cnt = st.get('value', st.get('count'))
+                if b['doc_count'] and cnt != b['doc_count']:
+                    bad_sub.append((float(b['key']), b['doc_count'], cnt))
             n += 1
             problems = []
             if sorted(got_tags) != sorted(want_tags.items()):
@@ -1649,9 +1659,11 @@ def w_agg_layout(failure, tier):
                 problems.append('nested terms buckets %s, expected %s' % (sorted(got_sub.items()), sorted(want_sub.items())))
             if sorted(got_hist) != sorted(want_hist.items()):
                 problems.append('histogram buckets %s, expected %s' % (sorted(got_hist), sorted(want_hist.items())))
+            if bad_sub:
+                problems.append('bounded histogram buckets (key, doc_count, value_count of the sub-aggregation): %s' % bad_sub)
             if problems:
                 return dict(found=True, cmd='%s search <<< hex(json)' % BIN,
-                            input='24 documents in %d segment(s), query %s, terms on tag with nested terms on kind, histogram on n (interval 2)' % (len(batches), _json.dumps(q)),
+                            input='24 documents in %d segment(s), query %s, terms on tag with nested terms on kind, histogram on n (interval 2), the same histogram with extended_bounds and a value_count sub-aggregation' % (len(batches), _json.dumps(q)),
                             observed='; '.join(problems), expected='the counts of the corpus, one bucket per key')
     return dict(found=False, note='bucket aggregations: %d (query, segment layout) combinations report the counts of the corpus' % n)
 
@@ -1784,6 +1796,7 @@ GENERATORS = {
     ('U47', 'is_pipeline_aggregation'): w_pipeline_aggs,
     ('U47', 'split_pipeline_aggs'): w_pipeline_aggs,
     ('U45', 'merge_bucket_lists'): w_agg_layout,
+    ('U45', 'merge_one_sub_agg'): w_agg_layout,
     ('U44', 'project_array'): w_stored_nested,
     ('U44', 'project_object'): w_stored_nested,
     ('U43', 'compact_docs'): w_compact,
